@@ -33,6 +33,11 @@ def plotly_rows(part, id1, id2, maxd=0, named=False, d=0):
     return rows_of(df, kw.get("input_cols"), bool(id2))
 
 
+def _counts(x):
+    """leaf counts as the partitioner reports them; [-1] when it reports none although there are points (a mismatch for the specification)"""
+    return [int(v) for v in x] if x is not None else [-1]
+
+
 def rows_of(df, names, has_id2):
     """the rows of a plotly view in the specification's vocabulary; names: the column labels the splits must carry (None: 'ax <i>')"""
     pos = {}
@@ -80,12 +85,12 @@ def session(cfgp, script):
         op = s[0]
         if op == "build":
             part.build(np.array(s[1], dtype=float))
-            ev.append({"op": "build", "data": s[1], "tree": walk(part.node), "counts": [int(x) for x in part.leaf_counts("build")]})
+            ev.append({"op": "build", "data": s[1], "tree": walk(part.node), "counts": _counts(part.leaf_counts("build"))})
         elif op == "fill":
             d = np.array(s[1], dtype=float).reshape(-1, len(script[0][1][0]))
             part.fill(d, tree_id=IDN[s[2]], reset=s[3])
             ev.append({"op": "fill", "data": s[1], "id": s[2], "reset": bool(s[3]), "tree": walk(part.node),
-                       "counts": [int(x) for x in part.leaf_counts(IDN[s[2]])]})
+                       "counts": _counts(part.leaf_counts(IDN[s[2]]))})
         elif op == "reset":
             part.reset(value=s[1], tree_id=IDN[s[2]])
             ev.append({"op": "reset", "value": int(s[1]), "id": s[2], "tree": walk(part.node)})
@@ -122,7 +127,7 @@ def refill_from(cfgp, data):
     a = np.array(data, dtype=float)
     part.build(a)
     part.fill(a.copy(), tree_id="a", reset=True)
-    e = {"op": "refill", "cb": [int(x) for x in part.leaf_counts("build")], "cf": [int(x) for x in part.leaf_counts("a")],
+    e = {"op": "refill", "cb": _counts(part.leaf_counts("build")), "cf": _counts(part.leaf_counts("a")),
          "n": len(data), "kl": num(part.kl_distance("build", "a"))}
     return {"cfg": cfgp, "ev": [e], "script": [["refill", data]], "data": data}
 
